@@ -350,14 +350,37 @@ def zeros_like(x, dtype=None, shape=None):
     return zeros(tuple(shape) if shape != () else (), dtype=dtype)
 
 
-def ones(shape, dtype=None):
+def full(shape, fill_value, dtype=None):
+    from ..sym import cast_to
     from ..tensor import Tensor
 
     if isinstance(shape, (int, Sym)) or isinstance(shape, z3.ExprRef):
         shape = (shape,)
+    v = cast_to(Sym(_lift(fill_value)), dtype).e
     if not shape:
-        return Sym(z3.RealVal(1))
-    return Tensor(tuple(shape), lambda idx: z3.RealVal(1))
+        return Sym(v)
+    return Tensor(tuple(shape), lambda idx: v)
+
+
+def ones(shape, dtype=None):
+    return full(shape, 1.0 if dtype is None else 1, dtype=dtype if dtype is not None else "float")
+
+
+def _like(x, value, dtype=None, shape=None):
+    if dtype is None:
+        srt = x.elem_sort() if _is_tensor(x) else (_lift(x).sort() if isinstance(x, (Sym, int, float, bool)) else None)
+        dtype = "int" if srt == z3.IntSort() else ("bool" if srt == z3.BoolSort() else "float")
+    if shape is None:
+        shape = x.shape if hasattr(x, "shape") and x.shape else ()
+    return full(tuple(shape) if shape != () else (), value, dtype=dtype)
+
+
+def ones_like(x, dtype=None, shape=None):
+    return _like(x, 1, dtype, shape)
+
+
+def full_like(x, fill_value, dtype=None, shape=None):
+    return _like(x, fill_value, dtype, shape)
 
 
 _KINDS = {"floating": {"float", "float32", "float16", "float64"}, "integer": {"int", "int32", "int64"}, "complexfloating": {"complex", "complex64"},
@@ -450,7 +473,7 @@ def namespace(**extra):
     ns = StubNS(
         result_type=result_type, issubdtype=issubdtype, floating="floating", integer="integer", inexact="inexact", complexfloating="complexfloating", number="number",
         array=array, asarray=asarray, shape=shape, ndim=ndim, where=where, logical_xor=logical_xor, take=take, sum=sum, any=any,
-        minimum=minimum, maximum=maximum, log=log, exp=exp, add=add, ndarray=object, arange=arange, zeros=zeros, ones=ones, mean=mean, repeat=repeat, nan=float('nan'), inf=INF, isfinite=isfinite, isinf=lambda x: ~isfinite(x), cumsum=cumsum, searchsorted=searchsorted, diag=diag, linalg=StubNS(inv=inv, slogdet=slogdet, cholesky=cholesky), zeros_like=zeros_like, concatenate=concatenate,
+        minimum=minimum, maximum=maximum, log=log, exp=exp, add=add, ndarray=object, arange=arange, zeros=zeros, ones=ones, mean=mean, repeat=repeat, nan=float('nan'), inf=INF, isfinite=isfinite, isinf=lambda x: ~isfinite(x), cumsum=cumsum, searchsorted=searchsorted, diag=diag, linalg=StubNS(inv=inv, slogdet=slogdet, cholesky=cholesky), zeros_like=zeros_like, ones_like=ones_like, full=full, full_like=full_like, concatenate=concatenate,
         float32="float32", int32="int32", bool_="bool", pi=3.141592653589793,
     )
     for k, v in extra.items():
